@@ -173,6 +173,25 @@ func computeLiveIn(fn *ssa.Function, idx map[ssa.Value]int) map[*ssa.BasicBlock]
 	return res
 }
 
+// markFresh records a slot (and the slots nested in its aggregate value) as
+// allocated inside a speculative arm.
+func (ex *Exec) markFresh(p *Value) {
+	if ex.freshSlots == nil {
+		ex.freshSlots = map[*Value]bool{}
+	}
+	ex.freshSlots[p] = true
+	switch x := (*p).(type) {
+	case Struct:
+		for i := range x {
+			ex.markFresh(&x[i])
+		}
+	case Array:
+		for i := range x {
+			ex.markFresh(&x[i])
+		}
+	}
+}
+
 type armResult struct {
 	regs     []Value
 	returned bool
@@ -326,7 +345,10 @@ func (ex *Exec) tryMergeAt(g *G, f *Frame, c *Term, J *ssa.BasicBlock) bool {
 					res, ok = nil, false
 					return
 				}
-				if _, isUns := r.(unsupported); isUns {
+				if u, isUns := r.(unsupported); isUns {
+					if debugMerge {
+						println("merge abort (unsupported) at", f.fn.String(), "block", savedBlock.Index, ":", u.what)
+					}
 					// e.g. a symbolic index inside the arm: forking may make it concrete
 					res, ok = nil, false
 					return
@@ -379,12 +401,18 @@ func (ex *Exec) tryMergeAt(g *G, f *Frame, c *Term, J *ssa.BasicBlock) bool {
 	a, okA := runArm(0, c)
 	if !okA {
 		ex.noMerge[savedBlock] = true
+		if debugMerge {
+			println("merge failed (site 385) at", f.fn.String(), "block", savedBlock.Index)
+		}
 		ex.mergeAborts++
 		return false
 	}
 	b, okB := runArm(1, ts.Not(c))
 	if !okB || a.returned != b.returned {
 		ex.noMerge[savedBlock] = true
+		if debugMerge {
+			println("merge failed (site 391) at", f.fn.String(), "block", savedBlock.Index)
+		}
 		ex.mergeAborts++
 		return false
 	}
@@ -413,9 +441,23 @@ func (ex *Exec) tryMergeAt(g *G, f *Frame, c *Term, J *ssa.BasicBlock) bool {
 				merged = append(merged, wr{p, va})
 				continue
 			}
+			if ex.freshSlots[p] {
+				// a slot allocated inside one arm: only pointers created in that arm reach
+				// it (a pointer that escapes the arm fails to merge below), so it keeps
+				// that arm's value
+				if inA {
+					merged = append(merged, wr{p, va})
+				} else {
+					merged = append(merged, wr{p, vb})
+				}
+				continue
+			}
 			mv, ok := ex.mergeVal(c, va, vb)
 			if !ok {
 				ex.noMerge[savedBlock] = true
+				if debugMerge {
+					println("merge failed (site 422) at", f.fn.String(), "block", savedBlock.Index)
+				}
 				ex.mergeAborts++
 				return false
 			}
@@ -433,6 +475,9 @@ func (ex *Exec) tryMergeAt(g *G, f *Frame, c *Term, J *ssa.BasicBlock) bool {
 			mv, ok := ex.mergeVal(c, a.ret, b.ret)
 			if !ok {
 				ex.noMerge[savedBlock] = true
+				if debugMerge {
+					println("merge failed (site 439) at", f.fn.String(), "block", savedBlock.Index)
+				}
 				ex.mergeAborts++
 				return false
 			}
@@ -447,6 +492,9 @@ func (ex *Exec) tryMergeAt(g *G, f *Frame, c *Term, J *ssa.BasicBlock) bool {
 			mv, ok := ex.mergeVal(c, a.phis[i], b.phis[i])
 			if !ok {
 				ex.noMerge[savedBlock] = true
+				if debugMerge {
+					println("merge failed (site 453) at", f.fn.String(), "block", savedBlock.Index)
+				}
 				ex.mergeAborts++
 				return false
 			}
@@ -471,6 +519,9 @@ func (ex *Exec) tryMergeAt(g *G, f *Frame, c *Term, J *ssa.BasicBlock) bool {
 			mv, ok := ex.mergeVal(c, va, vb)
 			if !ok {
 				ex.noMerge[savedBlock] = true
+				if debugMerge {
+					println("merge failed (site 477) at", f.fn.String(), "block", savedBlock.Index)
+				}
 				ex.mergeAborts++
 				return false
 			}
